@@ -14,7 +14,8 @@ G4 entry points    for every function declared in memory.h / array.h and every p
                    equal on the path count as one object.  Decided on the whole-library inlined IR with
                    the path-sensitive typestate engine.  Exemptions (documented "(re)initialised
                    regardless of state"): *_init, cstl_guarded_ptr_set, cstl_guarded_ptr_copy's
-                   destination; cstl_array_size reads only the length.
+                   destination; cstl_array_size reads only the length.  Conversely those (re)initialisers must
+                   never test the guard of the object they overwrite (it may be uninitialised or relocated).
 G5 no bitwise copy no library function memcpy's / cstl_swap's an object whose type contains a guarded
                    pointer (expected count 0; every memcpy / cstl_swap site is an instance).
 """
@@ -361,6 +362,16 @@ def check_entry(m, f, d, objs, rule):
         bad = sorted(set(bad))
         if unknown_calls:
             rule.undecided(site, 'object passed to a library call that was not inlined: %s' % unknown_calls[0].loc(), loc)
+        elif ex and (f.name, k) != ('cstl_array_size', 0):
+            # (re)initialisers: the converse clause -- what is about to be overwritten "regardless of its state" must not
+            # have its guard tested (never-initialised, zeroed or relocated-then-reseated storage would abort)
+            tested = [ret for (ret, ps) in res.exits if ps.auto[n] == 'G']
+            if tested:
+                rule.violation(site, 'on a path to the return at %s the guard of `%s` is tested although this function (re)initialises it regardless of '
+                               'its state (%s): initialising never-initialised or relocated storage through the library\'s own function aborts'
+                               % (tested[0].loc(), names[n], ex), loc, {'function': f.name, 'param': names[n]})
+            else:
+                rule.ok(site, 'exempt from the guard (%s); stamped without its guard being tested on all %d exit state(s)' % (ex, len(res.exits)), loc)
         elif ex:
             rule.ok(site, 'exempt: ' + ex, loc)
         elif not res.exits:
